@@ -207,7 +207,13 @@ def do_prog(script):
         elif t == "VarDecl":
             tops.append("decl:" + str(n.name))
     globs = [[str(g.name), str(g.expr)] for g in (prog.global_decls or []) if type(g).__name__ == "VarDecl"]
-    return {"status": "ok", "obs": out, "tops": tops, "globals": globs}
+    # function definitions: the constants baked into each body (a formal argument is a run-time value there)
+    funcs = {}
+    for f in (getattr(prog, "functions", None) or []):
+        fo = []
+        walk_ir(f.body, fo)
+        funcs.setdefault(str(f.name), fo)
+    return {"status": "ok", "obs": out, "tops": tops, "globals": globs, "funcs": funcs}
 
 
 class _StopLoops(BaseException):
